@@ -18,7 +18,10 @@ judged by a small shadow record kept by the harness:
     ``node_scan_duration``-th step.
 
 The oracle only reads (true, visible) health pairs, request statuses and the node power state: never the
-countdown fields of the code under check.
+countdown fields of the code under check.  "Visible" is what every item reports in ``describe_state()`` (the state
+dictionary observations are built from).  One extra harness (``obs``) additionally builds the real observation classes
+(Service/Application/File/FolderObservation with ``*_requires_scan``) and, once per step at the point where
+``PrimaiteGame.step`` does it, demands (a) of the health value actually shown to the agent.
 """
 from __future__ import annotations
 
@@ -394,7 +397,10 @@ class Shadow:
         for (clause, stem), (need, bad) in sorted(missed.items()):
             if not bad:
                 continue
-            if len(bad) == len(need):
+            if not stem.endswith(":single"):
+                # duration 0 / re-requested while running: one defect whatever else happens to refresh some items
+                what = "not-updated-at-deadline"
+            elif len(bad) == len(need):
                 what = "nothing-updated-at-deadline"
             else:
                 what = "+".join(sorted({k for (k, n), b, a in bad})) + "-not-updated-at-deadline"
@@ -692,16 +698,17 @@ def _plan(tier):
     """(menu, fix_svc, fix_app, dscan, drest, nscan, depth, state budget, time budget s)."""
     if tier == "thorough":
         plan = []
+        tb = 600  # per-harness safety net only (checked between levels); the plan is sized for ~20 min on 16 idle cores
         for fs_, fa, n in itertools.product((1, 2), (1, 2), (1, 2)):
-            plan.append(("sw", fs_, fa, 1, 1, n, 7, 400000, 150))
+            plan.append(("sw", fs_, fa, 1, 1, n, 8, 400000, tb))
         for ds, dr, n in itertools.product((0, 1, 3), (0, 1, 3), (1, 2)):
-            plan.append(("fst", 2, 2, ds, dr, n, 7, 400000, 100))
+            plan.append(("fst", 2, 2, ds, dr, n, 7, 400000, tb))
         for ds, dr, n in ((1, 3, 2), (3, 1, 1), (0, 0, 2), (3, 3, 2)):
-            plan.append(("fs", 2, 2, ds, dr, n, 5, 400000, 200))
-        plan += [("all", 1, 2, 1, 3, 2, 4, 400000, 200), ("all", 2, 1, 3, 1, 1, 4, 400000, 200),
-                 ("db", 1, 2, 1, 1, 2, 6, 400000, 200), ("db", 2, 2, 3, 3, 1, 6, 400000, 200),
-                 ("sw", 0, 1, 1, 1, 0, 6, 400000, 100), ("sw", 1, 0, 1, 1, 1, 6, 400000, 100),
-                 ("obs", 2, 2, 1, 1, 1, 6, 400000, 100), ("obs", 2, 2, 3, 1, 2, 6, 400000, 100)]
+            plan.append(("fs", 2, 2, ds, dr, n, 6, 400000, tb))
+        plan += [("all", 1, 2, 1, 3, 2, 5, 400000, tb), ("all", 2, 1, 3, 1, 1, 5, 400000, tb),
+                 ("db", 1, 2, 1, 1, 2, 7, 400000, tb), ("db", 2, 2, 3, 3, 1, 6, 400000, tb),
+                 ("sw", 0, 1, 1, 1, 0, 7, 400000, tb), ("sw", 1, 0, 1, 1, 1, 7, 400000, tb),
+                 ("obs", 2, 2, 1, 1, 1, 7, 400000, tb), ("obs", 2, 2, 3, 1, 2, 7, 400000, tb)]
         return plan
     return [
         ("sw", 1, 2, 1, 1, 2, 5, 60000, 15),
@@ -805,4 +812,11 @@ ASSUMPTIONS = [
     "true health is not constrained",
     "when a scan and a timed completion fall into the same step the scan may show the health before or after that completion",
     "a deleted file is covered by no scan; a folder restore must return live files to GOOD, deleted files may be returned",
+    "database scenario: the end of a database-service fix may set the true health of database/database.db to anything "
+    "(documented restore from the backup server) but must leave the visible health of that path unchanged",
+    "obs harness: the agent's view is the 'health_status' entry produced by the real observation classes configured with "
+    "*_requires_scan=True from Simulation.describe_state() taken after apply_timestep and before the next pre_timestep "
+    "(the order in PrimaiteGame.step); the first observation is taken before the first event",
+    "not explored: application install/uninstall, service stop/start/restart requests, OVERWHELMED (connection limit), "
+    "attacks delivered over the network (data-manipulation / ransomware / DoS), folder delete, power durations > 0",
 ]
